@@ -8,6 +8,7 @@
 -/
 import EvalFilter.Proofs.VMFrame
 import EvalFilter.Props.Tables
+import EvalFilter.Proofs.FnDefs3
 
 namespace EvalFilter.Props.C06
 open EvalFilter EvalFilter.VM
@@ -171,10 +172,181 @@ theorem C06_builtin_wins (M : Machine) (obj : HostVal) (codeLen : Nat)
   simp only [step, Op.ofNat?, Op.toNat, isBinary, hpop, h1, hv]
   cases v <;> simp_all
 
+/-! ### user-defined functions, end to end -/
+section endToEnd
+open EvalFilter.Exec EvalFilter.Compiler
+
+/-- **Scripts that define and call their own functions run as the language defines.**  For every script
+    (assignments, compound assignments, `local`, if / else, while, foreach, switch, return over
+    value-producing expressions) whose function definitions are at top level - bodies of any size, calling each other and
+    themselves, before or after their definition - with calls in the positions `x = f(a, …);`, `f(a, …);`,
+    `return f(a, …);`: the compiled program's run ends with exactly the outcome of the big-step semantics
+    `execSs` over the script's own function table.  In that semantics (`callWith`) a call evaluates its
+    arguments left to right; a built-in or host function of the name wins; otherwise the LAST definition of
+    the name in the script is taken, wherever it stands; an unknown name, a wrong argument count and more than
+    `maxCallDepth` open calls are errors; the body runs in a fresh scope holding the parameters; `return`
+    gives its value, falling off the end gives none; and however the body ends (from inside loops, too) the
+    scopes it opened are closed. -/
+theorem C06_functions_end_to_end (prog : Program) (hp : pureSs prog = true) (hn : topNd prog = true)
+    (hne : 1 ≤ Stmt.sizes prog) (c : Compiled)
+    (hc : compileProgram prog = .ok c) (fns : List (Str × FnImpl)) (obj : HostVal) (env : Env) (out : Str)
+    (polls depth f : Nat)
+    (hnd : execSs (Api.newMachine c false fns (fun _ => false)) (defsOf prog) obj depth f prog env out ≠ .diverged) :
+    ∃ n k, ∀ fuel, ∃ st',
+      run (Api.newMachine c false fns (fun _ => false)) obj (fuel + n) ⟨env, out, polls, depth⟩ = st' ∧
+      (match programResult (polls + k) depth (execSs (Api.newMachine c false fns (fun _ => false)) (defsOf prog) obj depth f prog env out) with
+       | some (r, s) => st'.1 = r ∧ st'.2.out = s.out ∧ st'.2.env.globals = s.env.globals ∧ st'.2.polls = s.polls
+       | none => True) :=
+  program_correct (defsOf prog) prog hp hne c hc fns obj env out polls depth f
+    (fnOK_of_compile prog hp hn c hc fns obj) hnd
+
+/-- the machine's function table is the script's: every name the script defines is bound to the code of
+    its last definition, no other name is bound -/
+theorem C06_function_table (prog : Program) (hp : pureSs prog = true) (hn : topNd prog = true) (c : Compiled)
+    (hc : compileProgram prog = .ok c) (fns : List (Str × FnImpl)) (obj : HostVal) :
+    FnOK (Api.newMachine c false fns (fun _ => false)) (defsOf prog) obj :=
+  fnOK_of_compile prog hp hn c hc fns obj
+
+/-- in the semantics: a built-in or host function wins over a user-defined one of the same name - the
+    script's own table is not even consulted -/
+theorem C06_sem_builtin_wins (deep : Bool) (run : List Stmt → Env → Str → Outcome) (M : Machine) (F : FnTable) (obj : HostVal)
+    (name : Str) (args : List Expr) (env : Env) (out : Str) (impl : FnImpl) (h : lookupFn M name = some impl) :
+    callWith deep run M F obj name args env out = callWith deep run M [] obj name args env out := by
+  unfold callWith
+  cases evalEs M obj env args out with
+  | mk res o => cases res <;> simp [h]
+
+/-- in the semantics: calling a name nobody defines is an error -/
+theorem C06_sem_unknown_function (deep : Bool) (run : List Stmt → Env → Str → Outcome) (M : Machine) (F : FnTable) (obj : HostVal)
+    (name : Str) (args : List Expr) (env : Env) (out : Str) (vs : List Value) (o : Str)
+    (ha : evalEs M obj env args out = (.ok vs, o)) (h1 : lookupFn M name = none) (h2 : F.find name = none) :
+    callWith deep run M F obj name args env out = .failed (.error "noSuchFunction") env o := by
+  simp [callWith, ha, h1, h2]
+
+/-- in the semantics: a wrong argument count is an error, and the body does not run -/
+theorem C06_sem_arg_count (run : List Stmt → Env → Str → Outcome) (M : Machine) (F : FnTable) (obj : HostVal)
+    (name : Str) (args : List Expr) (env : Env) (out : Str) (vs : List Value) (o : Str) (sf : SFn)
+    (ha : evalEs M obj env args out = (.ok vs, o)) (h1 : lookupFn M name = none) (h2 : F.find name = some sf)
+    (hl : sf.params.length ≠ vs.length) :
+    callWith false run M F obj name args env out = .failed (.error "argCount") env.addScope o := by
+  simp [callWith, ha, h1, h2, hl]
+
+/-- in the semantics: however the body ends, a call that comes back leaves no more scopes open than before -/
+theorem C06_sem_scopes_closed (deep : Bool) (run : List Stmt → Env → Str → Outcome) (M : Machine) (F : FnTable) (obj : HostVal)
+    (name : Str) (args : List Expr) (env : Env) (out : Str) :
+    (∀ v env' o', callWith deep run M F obj name args env out = .value v env' o' → env'.scopes.length ≤ env.scopes.length) ∧
+    (∀ env' o', callWith deep run M F obj name args env out = .novalue env' o' → env'.scopes.length ≤ env.scopes.length) := by
+  have hdecl : ∀ (ps : List (Str × Value)) (e : Env),
+      (ps.foldl (fun e (p : Str × Value) => e.declare p.1 p.2) e).scopes.length = e.scopes.length := by
+    intro ps
+    induction ps with
+    | nil => intro e; rfl
+    | cons p ps ih =>
+      intro e
+      simp only [List.foldl_cons, ih]
+      unfold Env.declare
+      split
+      · rfl
+      · rename_i s rest hr
+        have := congrArg List.length hr
+        simp at this ⊢
+        omega
+  have hend : ∀ (v : Value) (e0 : Env) (o : Str) (n : Nat),
+      (∀ v' env' o', callEnd v (e0.truncate (n + 1)) o = .value v' env' o' → env'.scopes.length ≤ n) ∧
+      (∀ env' o', callEnd v (e0.truncate (n + 1)) o = .novalue env' o' → env'.scopes.length ≤ n) := by
+    intro v e0 o n
+    unfold callEnd Env.removeScope Env.truncate
+    constructor
+    · intro v' env' o' h
+      split at h
+      · cases h
+      · rename_i e hs
+        split at hs
+        · cases hs
+        · cases hs
+          split at h <;> cases h
+          simp [List.length_dropLast, List.length_take]; omega
+    · intro env' o' h
+      split at h
+      · cases h
+      · rename_i e hs
+        split at hs
+        · cases hs
+        · cases hs
+          split at h <;> cases h
+          simp [List.length_dropLast, List.length_take]; omega
+  unfold callWith
+  cases evalEs M obj env args out with
+  | mk res o =>
+    cases res with
+    | error x => simp
+    | ok vs =>
+      cases hl : lookupFn M name with
+      | some impl =>
+        simp only [hl]
+        generalize callImpl name impl vs = cr
+        cases hr : cr.res with
+        | panic => simp
+        | unsupported => simp
+        | val v => cases v <;> simp
+      | none =>
+        simp only [hl]
+        cases hf : F.find name with
+        | none => simp
+        | some sf =>
+          simp only [hf]
+          split
+          · simp
+          split
+          · simp
+          · have hlen : ((sf.params.zip vs).foldl (fun e (p : Str × Value) => e.declare p.1 p.2) env.addScope).scopes.length
+                = env.scopes.length + 1 := by rw [hdecl]; simp [Env.addScope]
+            rw [hlen]
+            cases run sf.body ((sf.params.zip vs).foldl (fun e (p : Str × Value) => e.declare p.1 p.2) env.addScope) o with
+            | diverged => simp
+            | failed x e2 o2 => simp
+            | returned v e2 o2 => exact hend v e2 o2 env.scopes.length
+            | normal e2 o2 => exact hend .void e2 o2 env.scopes.length
+
+end endToEnd
+
 /-- the registry consulted first is the regenerated list of built-ins -/
 theorem C06_builtin_registry : Builtins.names = Spec.Tables.builtins.map (·.1) := Props.Tables.model_builtins
 
 example : (({} : Env).addScope.declare "x".toList (.int 1)).get "x".toList = some (.int 1) :=
   C06_declare_visible _ _ _ (by simp [Env.addScope])
+
+section nonvacuous
+open EvalFilter.Exec EvalFilter.Compiler
+/-- `n = 7; m = 3; function f(n) { local m; m = n; n = 1; g = m; return n; } y = f(5); return n * 1000 + m * 100 + g * 10 + y;`:
+    after the call the caller's `n` and `m` have their old values (the parameter and the local are gone),
+    the assignment to `g` is global: 7351 -/
+private def progC : Program :=
+  [ .expr (.assign ['n'] (.intLit ['7'] 7)),
+    .expr (.assign ['m'] (.intLit ['3'] 3)),
+    .expr (.funcDef ['f'] [['n']]
+      [ .expr (.localE ['m']),
+        .expr (.assign ['m'] (.ident ['n'])),
+        .expr (.assign ['n'] (.intLit ['1'] 1)),
+        .expr (.assign ['g'] (.ident ['m'])),
+        .ret (.ident ['n']) ]),
+    .expr (.assign ['y'] (.call (.ident ['f']) [.intLit ['5'] 5])),
+    .ret (.infix ['+'] (.infix ['+'] (.infix ['+'] (.infix ['*'] (.ident ['n']) (.intLit ['1','0','0','0'] 1000))
+        (.infix ['*'] (.ident ['m']) (.intLit ['1','0','0'] 100)))
+        (.infix ['*'] (.ident ['g']) (.intLit ['1','0'] 10))) (.ident ['y'])) ]
+private def compC : Compiled := match compileProgram progC with | .ok c => c | .error _ => ⟨[], [], []⟩
+example : pureSs progC = true := by decide
+example : topNd progC = true := by decide
+example : 1 ≤ Stmt.sizes progC := by decide
+example : compileProgram progC = .ok compC := by
+  have hok : (match compileProgram progC with | .ok _ => true | .error _ => false) = true := by decide +kernel
+  unfold compC
+  cases h : compileProgram progC with
+  | ok c => rfl
+  | error e => rw [h] at hok; cases hok
+example : (match execSs (Api.newMachine compC false [] (fun _ => false)) (defsOf progC) .nilIface 0 20 progC {} [] with
+    | .returned (.int v) _ _ => v == 7351
+    | _ => false) = true := by decide +kernel
+end nonvacuous
 
 end EvalFilter.Props.C06
